@@ -70,7 +70,7 @@ struct Case
     std::vector<Op> ops;
 };
 
-constexpr int     kMaxCap    = 128;
+constexpr int     kMaxCap    = 256;
 constexpr int     kMaxElems  = 320;
 constexpr int64_t kMaxTtlMs  = 100000;
 constexpr int64_t kMaxAdvNs  = 200'000'000'000ll;
